@@ -55,9 +55,8 @@ theorem Ctx0.outer [AddCommMonoid R] [Mul R] [Neg R]
           V.get J = (tensordotBlockwise A B (freeAxes A.ndim []) [] [] (freeAxes B.ndim [])).elem K J)
       ∧ (∀ s ∈ (tensordotBlockwise A B (freeAxes A.ndim []) [] [] (freeAxes B.ndim [])).sectors,
           s ∈ c.sectors)
-      ∧ (∀ K V, alookup c.blocks K = some V →
-          Arr.blockShape? (permuted A.indices (freeAxes A.ndim [])
-            ++ permuted B.indices (freeAxes B.ndim [])) K = some V.shape) := by
+      ∧ List.Forall₂ SizeLe c.indices (permuted A.indices (freeAxes A.ndim [])
+            ++ permuted B.indices (freeAxes B.ndim [])) := by
   have hpA := solo_all hneL
   have hpB := solo_all hneR
   have hokA := hpA.groupsOk
@@ -273,12 +272,9 @@ theorem Ctx0.outer [AddCommMonoid R] [Mul R] [Neg R]
     have h2 := hfwd2 _ By hmem' (permuted sa.1 (freeAxes A.ndim []))
       (by simpa using segOf_stored h.vaA hokA gA0 hsa S0 hcL)
     simpa using h2
-  · -- shapes
-    intro K V hl
-    have hs := Arr.shapesOk_of_validB hcv (K, V) (alookup_mem hl)
-    simp only at hs
-    rw [hci] at hs
-    exact blockShape?_weaken (forall₂_append hlegA hlegB) K _ hs
+  · -- index tables
+    rw [hci]
+    exact forall₂_append hlegA hlegB
 
 end TdotP
 end SymmModel
